@@ -25,7 +25,7 @@ ASSUMPTIONS = ['refsm decoder (written from the Source Map V3 document) and its 
                'well-formed = shape required by the docstring of write(): line and column both present or both absent; '
                'a line break inside a fragment only when the fragment is explicitly positioned or the break is its last character']
 BUDGET_S = {'quick': 60, 'thorough': 700}
-REQUIRED_HITS = ['sourcemap.write', 'encode_sourcemap', 'explicit_fragments_verified']
+REQUIRED_HITS = ['sourcemap.write', 'encode_sourcemap', 'explicit_fragments_verified', 'wide_program']
 FLOOR = {'quick': 3000, 'thorough': 40000}
 
 
@@ -41,6 +41,9 @@ def synthetic(rng):
     frags = []
     n = rng.randint(3, 30)
     line, col = rng.randint(1, 5), rng.randint(1, 20)
+    # most streams look like formatted code; some like minified bundles and generated data (lines thousands of
+    # columns long, files thousands of lines long), where the running deltas leave the one- and two-digit range
+    scale = rng.choice([1, 1, 1, 1, 1, 1, 1, 30, 300, 2000, 40000])
     first_source_given = False
     if rng.random() < 0.2:
         frags.append((rng.choice(['  ', '/*x*/', 'pre']), None, None, None, None))
@@ -50,15 +53,15 @@ def synthetic(rng):
             # explicitly positioned token
             j = rng.random()
             if j < 0.5:
-                col += rng.randint(1, 6)
+                col += rng.randint(1, 6 * scale)
             elif j < 0.7:
-                line += rng.randint(1, 3)
+                line += rng.randint(1, 3 * scale)
                 col = rng.randint(1, 10)
             elif j < 0.85:
-                col = max(1, col - rng.randint(1, 8))
+                col = max(1, col - rng.randint(1, 8 * scale))
             else:
-                line = max(1, line - rng.randint(1, 3))
-                col = rng.randint(1, 30)
+                line = max(1, line - rng.randint(1, 3 * scale))
+                col = rng.randint(1, 30 * scale)
             text = rng.choice(['a', 'foo', 'x1', '+', '===', 'function', '"str"', '1234', ';', '(', ')', '{', '}'])
             name = None
             if text[0].isalpha() and rng.random() < 0.3:
@@ -109,7 +112,17 @@ def run_stream(ctx, mon, frags, normalize, origin):
     import calmjs.parse.sourcemap as sm
     state = {'origin': origin}
     out = io.StringIO()
-    sm.write(iter(frags), out, normalize=normalize)
+    try:
+        sm.write(iter(frags), out, normalize=normalize)
+    except RecursionError:
+        ctx.count('skipped:resource_limit')
+        return
+    except Exception as e:
+        # no map at all for a well-formed stream
+        ctx.violation('C09:writer_raised:%s' % type(e).__name__, {'fragments': jsonable(frags), 'normalize': normalize},
+                      'sourcemap.write raised %s: %s\nnormalize=%s origin=%s\nfragments: %r' % (
+                          type(e).__name__, e, normalize, origin, jsonable(frags)[:25]))
+        return
     nt = nontrivial(frags)
     ctx.case(frag_key(frags, normalize), nt,
              sample={'origin': origin, 'normalize': normalize, 'fragments': jsonable(frags)[:12],
@@ -145,6 +158,28 @@ def run(ctx):
 
         def opts_fn(i, r):
             return jsgen.Opts(clean=True, string_continuations=(i % 3 == 0), allow_with=False)
+        # bundle-like programs: a line thousands of columns long, a file thousands of lines long, and a short file
+        # chained after either (the first token of the next file lies far *before* where the previous one ended)
+        wide = ['var a = "%s", b = 1;\nvar c = a + b;\nc = [a, b];' % ('x' * 1500),
+                'var t = [%s];\nt.push(1);' % ','.join('"v%d"' % k for k in range(400)),
+                ''.join('a%d = %d;\n' % (k, k) for k in range(1300)) + 'done();',
+                'f(%s);\ng();' % ('1,' * 2400 + '1')]
+        for k, text in enumerate(wide):
+            if k % ctx.nshards != ctx.shard:
+                continue
+            tree, err = work.run_impl(text, with_comments=False)
+            tail, err = work.run_impl('var z = 1;\nz++;', with_comments=False)
+            if tree is None or tail is None:
+                raise HarnessBroken('wide program %d not accepted' % k)
+            tree.sourcepath, tail.sourcepath = 'src/wide%d.js' % k, 'src/tail.js'
+            for name, make in makers:
+                pr = make()
+                frags = [tuple(f) for f in pr(tree)]
+                both = frags + [tuple(f) for f in pr(tail)]
+                for normalize in (True, False):
+                    run_stream(ctx, mon, frags, normalize, 'wide:' + name)
+                    run_stream(ctx, mon, both, normalize, 'wide_chained:' + name)
+                ctx.hit('wide_program')
         progs = work.Programs(ctx, ctx.per_shard(150, 3000), opts_fn=opts_fn)
         pool = []
         for i, (text, meta) in enumerate(progs):
